@@ -211,14 +211,39 @@ def r5_tx_commitment(ctx):
         r.check(bool(sorted_before), "tip908/sorted", "the vector is sorted before the tree is built", "DenseMerkleTree::new(%s) is not dominated by a sort of that vector" % sig(v), b.where(bi))
     pushes = q.calls_to(b, "Vec::push")
     r.check(len(pushes) >= 1, "tip908/push", "elements are pushed", "nothing is pushed")
+    TX = "elem(TransactionSet::iter($1.transactions))"
+    NOSIGS, FULL = "Transaction::hash_nosigs(%s)" % TX, "Hashable::hash(StdcodeSerializeExt::stdcode(%s))" % TX
+
+    def strip0(x):
+        while x.endswith(".0"):
+            x = x[:-2]
+        return x
     for bi, t in pushes:
         e = b.rec_call(t, bi)
-        s = sig(e[2][1])
-        r.check("Transaction::hash_nosigs(elem(TransactionSet::iter($1.transactions)))" in s, "tip908/elem", "element derives from hash_nosigs(tx)", "pushes %s" % s, b.where(bi))
-    for c in ctx.prog.closures_of(b):
-        ext = q.calls_to(c, "Vec::extend_from_slice")
-        ss = [sig(c.rec_call(t, bi)[2][1]) for bi, t in ext]
-        r.check(ss == ["Hashable::hash(StdcodeSerializeExt::stdcode(^tx)).0"], "tip908/leaf", "leaf = nosigs_hash ‖ hash(stdcode(tx))", "leaf extension is %s" % ss, "%s:%s" % (c.file, c.line))
+        pushed = mir.strip(e[2][1])
+        s = sig(pushed)
+        if NOSIGS in s:
+            # built in a closure applied to the hash (`hash.pipe(|h| { let mut v = h.0.to_vec(); v.extend_from_slice(full); v })`)
+            r.ok("tip908/elem", "element derives from hash_nosigs(tx)", b.where(bi))
+            for c in ctx.prog.closures_of(b):
+                ext = q.calls_to(c, "Vec::extend_from_slice")
+                ss = [sig(c.rec_call(t2, b2)[2][1]) for b2, t2 in ext]
+                r.check(ss == ["Hashable::hash(StdcodeSerializeExt::stdcode(^tx)).0"], "tip908/leaf", "leaf = nosigs_hash ‖ hash(stdcode(tx))", "leaf extension is %s" % ss, "%s:%s" % (c.file, c.line))
+        elif pushed[0] == "var":
+            # built in place: the byte sources appended to the pushed vector, in program order
+            name = pushed[1]
+            parts = []
+            d0 = q.var_def_exprs(b, name.split("#")[0]) if "#" not in name else q.var_def_exprs(b, name)
+            for d in d0[:1]:
+                if q.is_call(d[1], "to_vec") or "to_vec" in sig(d[1]):
+                    parts.append(strip0(sig(q.novers(d[1][2][0])) if d[1][0] == "call" else sig(d[1])))
+            for b2, e2 in q.call_exprs(b, "Vec::extend_from_slice"):
+                if sig(q.novers(mir.strip(e2[2][0]))) == name:
+                    parts.append(strip0(sig(q.novers(e2[2][1]))))
+            r.check(parts[:1] == [NOSIGS], "tip908/elem", "element starts with hash_nosigs(tx)", "the pushed vector is assembled from %s" % parts, b.where(bi))
+            r.check(parts == [NOSIGS, FULL], "tip908/leaf", "leaf = nosigs_hash ‖ hash(stdcode(tx))", "leaf is assembled from %s" % parts, b.where(bi))
+        else:
+            r.undecided("tip908/elem", "shape of the pushed leaf not recognised: %s" % s[:120], b.where(bi))
 
 
 def _is_header_switch(b, h, x):
